@@ -94,6 +94,21 @@ def straddle_packets(rng, ks=range(0, 26)):
                          "rdata": ("T", "CNAME", [("N", [b"x"] + straddler[2:])])})
         p["adds"].append({"name": straddler, "class": 1, "ttl": 3, "cf": False, "rdata": ("T", "NS", [("N", straddler[1:])])})
         out.append(p)
+        # the same layout with the straddling name inside RDATA that is never compressed (an SRV target): nothing may point into it
+        # beyond the limit either
+        import copy
+        q = copy.deepcopy(p)
+        q["ans"] = q["ans"][:-2]
+        pad = q["ans"].pop()
+        fixed = 1 + 10 + 6                       # root owner, fixed part, priority / weight / port
+        blob = pad["rdata"][2]
+        if len(blob) > fixed + 1:
+            q["ans"].append(dict(pad, rdata=("U", 4242, blob[:len(blob) - fixed])))
+            q["ans"].append({"name": [], "class": 1, "ttl": 1, "cf": False,
+                             "rdata": ("T", "SRV", [("I", 0), ("I", 0), ("I", 80), ("N", [b"gw", b"inner%d" % (k % 3), b"lan"])])})
+            q["ans"].append({"name": [b"peer", b"inner%d" % (k % 3), b"lan"], "class": 1, "ttl": 2, "cf": False, "rdata": ("T", "A", [("I", 2)])})
+            q["adds"] = [{"name": [b"lan"], "class": 1, "ttl": 3, "cf": False, "rdata": ("T", "NS", [("N", [b"inner%d" % (k % 3), b"lan"])])}]
+            out.append(q)
     return out
 
 
